@@ -551,6 +551,10 @@ func r11_4(c *Ctx, a *parserAnchors) {
 					_, good = isFieldLoad(call.Call.Args[0], a.errorsFld)
 				}
 				c.check(good, key, st.Pos(), "append to the list", "the error constructor must only append to the list")
+				// every call records: no path from the entry to a return avoids the append (a filtered or
+				// de-duplicated error makes `nil result => error recorded` false)
+				skip := reachesAvoiding(f, nil, st.Block(), func(*ssa.BasicBlock, int) bool { return false })
+				c.check(!skip, fmt.Sprintf("%s: every call appends (store #%d)", fnName(f), n), st.Pos(), "the append is on every path from entry to return", "the error constructor can return without appending: an error is dropped, so a failed parse (nil node) can end with an empty error list and ParseProgram reports success for an incomplete tree")
 			default:
 				c.bad(key, st.Pos(), "the error list is written outside the constructor and the error constructor: errors can be lost or invented")
 			}
